@@ -36,7 +36,7 @@ def await_polls(body, future_calls):
 def atomic_field_ops(cx, field, skip=("load", "new")):
     """every atomic operation in the crate whose receiver derives from struct field `field`"""
     res = []
-    for body in cx.f.bodies.values():
+    for body in cx.f.scan_bodies():
         for c in body.calls:
             if c.bb not in body.live or not c.args:
                 continue
